@@ -815,7 +815,10 @@ void agree_group(Rng & r, int n)
   constexpr int R = G::RepSize;
   const std::string g = GName<G>::get();
   const char * opn[] = {"coeffs", "matrix", "inverse", "log", "Ad", "compose", "rplus", "rminus", "isApprox", "cast", "dof",
-    "exp", "hat", "vee", "ad", "bracket", "dr_exp", "dr_expinv", "dl_exp", "dl_expinv", "d2r_exp", "d2r_expinv", "copy", "inplace_mul", "inplace_plus"};
+    "exp", "hat", "vee", "ad", "bracket", "dr_exp", "dr_expinv", "dl_exp", "dl_expinv", "d2r_exp", "d2r_expinv", "copy", "inplace_mul", "inplace_plus",
+    // API-coverage unit (DESIGN 8.10): the statics also through Map<const G>, Identity / setIdentity, aliased in-place product through a
+    // view, the free-function interface on views, and every CLASS-SPECIFIC member (accessor const overloads, conversions, actions)
+    "Identity", "d2l_exp", "d2l_expinv", "set_identity", "inplace_sq", "free_fn", "accessor", "conversion", "action", "dr_action"};
   std::vector<Agree<S>> A;
   for (const char * o : opn) { A.push_back({}); A.back().g = g; A.back().op = o; }
   auto at = [&](const char * o) -> Agree<S> & { for (auto & a : A) if (a.op == o) return a; return A[0]; };
@@ -830,6 +833,95 @@ void agree_group(Rng & r, int n)
     for (int i = 0; i < R; ++i) { raw1[o1 + i] = g1.coeffs()(i); raw2[o2 + i] = g2.coeffs()(i); }
     const smooth::Map<G> m1(raw1 + o1), m2(raw2 + o2);
     const smooth::Map<const G> c1(raw1 + o1), c2(raw2 + o2);
+    // class-specific public members of the concrete group classes, value versus view (x is const: the const overloads)
+    auto class_specific = [&](const G & v, const auto & x, const char * combo) {
+      using V2 = Eigen::Matrix<S, 2, 1>;
+      using V3 = Eigen::Matrix<S, 3, 1>;
+      using V4 = Eigen::Matrix<S, 4, 1>;
+      const V2 p2(S(r.uni(-2, 2)), S(r.uni(-2, 2)));
+      const V3 p3(S(r.uni(-2, 2)), S(r.uni(-2, 2)), S(r.uni(-2, 2)));
+      const V4 p4(S(r.uni(-2, 2)), S(r.uni(-2, 2)), S(r.uni(-2, 2)), S(r.uni(-2, 2)));
+      auto sc = [](S s) { return Eigen::Matrix<S, 1, 1>(s); };
+      if constexpr (std::is_base_of_v<smooth::SO2Base<G>, G>) {
+        at("conversion").cmp(sc(v.angle()), sc(x.angle()), combo);
+        at("conversion").cmp(sc(v.angle_cw()), sc(x.angle_cw()), combo);
+        at("conversion").cmp(sc(v.angle_ccw()), sc(x.angle_ccw()), combo);
+        at("conversion").cmp(v.unit_complex(), x.unit_complex(), combo);
+        at("conversion").cmp(V2(v.u1().real(), v.u1().imag()), V2(x.u1().real(), x.u1().imag()), combo);
+        at("conversion").cmp(v.lift_so3().coeffs(), x.lift_so3().coeffs(), combo);
+        at("action").cmp(v * p2, x * p2, combo);
+        at("dr_action").cmp(v.dr_action(p2), x.dr_action(p2), combo);
+      } else if constexpr (std::is_base_of_v<smooth::SO3Base<G>, G>) {
+        at("accessor").cmp(v.quat().coeffs(), x.quat().coeffs(), combo);
+        at("conversion").cmp(v.eulerAngles(), x.eulerAngles(), combo);
+        at("conversion").cmp(v.eulerAngles(0, 1, 2), x.eulerAngles(0, 1, 2), combo);
+        at("conversion").cmp(v.project_so2().coeffs(), x.project_so2().coeffs(), combo);
+        at("action").cmp(v * p3, x * p3, combo);
+        at("dr_action").cmp(v.dr_action(p3), x.dr_action(p3), combo);
+      } else if constexpr (is_se2_v<G>) {
+        at("accessor").cmp(v.so2().coeffs(), x.so2().coeffs(), combo);
+        at("accessor").cmp(v.r2(), x.r2(), combo);
+        at("conversion").cmp(v.isometry().matrix(), x.isometry().matrix(), combo);
+        at("conversion").cmp(v.lift_se3().coeffs(), x.lift_se3().coeffs(), combo);
+        at("action").cmp(v * p2, x * p2, combo);
+        at("dr_action").cmp(v.dr_action(p2), x.dr_action(p2), combo);
+      } else if constexpr (is_se3_v<G>) {
+        at("accessor").cmp(v.so3().coeffs(), x.so3().coeffs(), combo);
+        at("accessor").cmp(v.r3(), x.r3(), combo);
+        at("conversion").cmp(v.isometry().matrix(), x.isometry().matrix(), combo);
+        at("conversion").cmp(v.project_se2().coeffs(), x.project_se2().coeffs(), combo);
+        at("action").cmp(v * p3, x * p3, combo);
+        at("dr_action").cmp(v.dr_action(p3), x.dr_action(p3), combo);
+      } else if constexpr (std::is_base_of_v<smooth::C1Base<G>, G>) {
+        at("conversion").cmp(sc(v.angle()), sc(x.angle()), combo);
+        at("conversion").cmp(sc(v.scaling()), sc(x.scaling()), combo);
+        at("conversion").cmp(v.so2().coeffs(), x.so2().coeffs(), combo);
+        at("conversion").cmp(V2(v.c1().real(), v.c1().imag()), V2(x.c1().real(), x.c1().imag()), combo);
+        at("action").cmp(v * p2, x * p2, combo);
+      } else if constexpr (is_gal_v<G>) {
+        at("accessor").cmp(v.so3().coeffs(), x.so3().coeffs(), combo);
+        at("accessor").cmp(v.r3_v(), x.r3_v(), combo);
+        at("accessor").cmp(v.r3_p(), x.r3_p(), combo);
+        at("accessor").cmp(v.r1_t(), x.r1_t(), combo);
+        at("action").cmp(v * p4, x * p4, combo);
+        at("dr_action").cmp(v.dr_action(p4), x.dr_action(p4), combo);
+      } else if constexpr (is_sek_v<G>) {
+        at("accessor").cmp(v.so3().coeffs(), x.so3().coeffs(), combo);
+        at("accessor").cmp(v.template r3<0>(), x.template r3<0>(), combo);
+        at("accessor").cmp(v.r3(int(G::K) - 1), x.r3(int(G::K) - 1), combo);
+      } else if constexpr (is_bundle_v<G>) {
+        auto flat = [](const auto & part) {
+          if constexpr (is_eigen_v<std::remove_cvref_t<decltype(part)>>) return Eigen::Matrix<S, Eigen::Dynamic, 1>(part);
+          else return Eigen::Matrix<S, Eigen::Dynamic, 1>(part.coeffs());
+        };
+        at("accessor").cmp(flat(v.template part<0>()), flat(x.template part<0>()), combo);
+        at("accessor").cmp(flat(v.template part<G::BundleSize - 1>()), flat(x.template part<G::BundleSize - 1>()), combo);
+      }
+      (void)p2; (void)p3; (void)p4; (void)sc;
+    };
+    // the NON-const overloads of the sub-part accessors (they need a mutable receiver), read through
+    auto class_specific_mut = [&](G & v, auto & x, const char * combo) {
+      if constexpr (std::is_base_of_v<smooth::SO3Base<G>, G>) {
+        at("accessor").cmp(v.quat().coeffs(), x.quat().coeffs(), combo);
+      } else if constexpr (is_se2_v<G>) {
+        at("accessor").cmp(v.so2().coeffs(), x.so2().coeffs(), combo);
+        at("accessor").cmp(v.r2(), x.r2(), combo);
+      } else if constexpr (is_se3_v<G>) {
+        at("accessor").cmp(v.so3().coeffs(), x.so3().coeffs(), combo);
+        at("accessor").cmp(v.r3(), x.r3(), combo);
+      } else if constexpr (is_gal_v<G>) {
+        at("accessor").cmp(v.so3().coeffs(), x.so3().coeffs(), combo);
+        at("accessor").cmp(v.r3_v(), x.r3_v(), combo);
+        at("accessor").cmp(v.r3_p(), x.r3_p(), combo);
+        at("accessor").cmp(v.r1_t(), x.r1_t(), combo);
+      } else if constexpr (is_sek_v<G>) {
+        at("accessor").cmp(v.so3().coeffs(), x.so3().coeffs(), combo);
+        at("accessor").cmp(v.template r3<0>(), x.template r3<0>(), combo);
+        at("accessor").cmp(v.r3(int(G::K) - 1), x.r3(int(G::K) - 1), combo);
+      }
+      at("coeffs").cmp(v.coeffs(), x.coeffs(), combo);
+      for (int i = 0; i < R; ++i) at("coeffs").cmpb(v.data()[i] == x.data()[i] || (v.data()[i] != v.data()[i]), true, combo);
+    };
     // unary
     auto unary = [&](const auto & x, const char * combo) {
       at("coeffs").cmp(g1.coeffs(), x.coeffs(), combo);
@@ -842,6 +934,14 @@ void agree_group(Rng & r, int n)
       at("dof").cmpb(g1.dof() == x.dof(), true, combo);
       const G cp(x);
       at("copy").cmp(g1.coeffs(), cp.coeffs(), combo);
+      // free-function interface (concepts/lie_group.hpp, concepts/manifold.hpp) with a view as the argument
+      at("free_fn").cmp(smooth::log(g1), smooth::log(x), combo);
+      at("free_fn").cmp(smooth::inverse(g1).coeffs(), smooth::inverse(x).coeffs(), combo);
+      at("free_fn").cmp(smooth::Ad(g1), smooth::Ad(x), combo);
+      at("free_fn").cmp(smooth::rplus(g1, a).coeffs(), smooth::rplus(x, a).coeffs(), combo);
+      at("free_fn").cmp(smooth::lplus(g1, a).coeffs(), smooth::lplus(x, a).coeffs(), combo);
+      at("free_fn").cmpb(smooth::dof(g1) == smooth::dof(x), true, combo);
+      class_specific(g1, x, combo);
     };
     unary(m1, "map");
     unary(c1, "cmap");
@@ -866,6 +966,18 @@ void agree_group(Rng & r, int n)
       at("inplace_mul").cmp(v3.coeffs(), m3.coeffs(), "map*=cmap");
       v3 += a; m3 += a;
       at("inplace_plus").cmp(v3.coeffs(), m3.coeffs(), "map+=a");
+      // aliased in-place product: the view is its own right operand (directly, and through a const view of the same memory)
+      v3 *= v3; m3 *= m3;
+      at("inplace_sq").cmp(v3.coeffs(), m3.coeffs(), "map*=map(same)");
+      {
+        const smooth::Map<const G> c3(raw3 + o3);
+        v3 *= v3; m3 *= c3;
+        at("inplace_sq").cmp(v3.coeffs(), m3.coeffs(), "map*=cmap(same)");
+      }
+      // the non-const accessor overloads on a mutable view, read back
+      class_specific_mut(v3, m3, "map(mutable)");
+      v3.setIdentity(); m3.setIdentity();
+      at("set_identity").cmp(v3.coeffs(), m3.coeffs(), "map");
     }
     // static tangent API through the Map types
     using MG = smooth::Map<G>;
@@ -880,13 +992,16 @@ void agree_group(Rng & r, int n)
       at("dr_expinv").cmp(G::dr_expinv(a), X::dr_expinv(a), combo);
       at("dl_exp").cmp(G::dl_exp(a), X::dl_exp(a), combo);
       at("dl_expinv").cmp(G::dl_expinv(a), X::dl_expinv(a), combo);
+      at("Identity").cmp(G::Identity().coeffs(), X::Identity().coeffs(), combo);
       if constexpr (HasHess<G>::value) {
         at("d2r_exp").cmp(G::d2r_exp(a), X::d2r_exp(a), combo);
         at("d2r_expinv").cmp(G::d2r_expinv(a), X::d2r_expinv(a), combo);
+        at("d2l_exp").cmp(G::d2l_exp(a), X::d2l_exp(a), combo);
+        at("d2l_expinv").cmp(G::d2l_expinv(a), X::d2l_expinv(a), combo);
       }
     };
     statics(std::type_identity<MG>{}, "map");
-    (void)sizeof(CG);
+    statics(std::type_identity<CG>{}, "cmap");
   }
   for (auto & a : A)
     if (a.n) a.flush();
